@@ -7,7 +7,7 @@ from .lib.paths import explore
 SELECT = r'^bluetoe::server::(l2cap_input|handle_\w+|error_response|check_size_and_handle_range|check_size_and_handle|check_handle|read_multiple\w*|collect_handle_uuid_tuples)$|^bluetoe::details::(read_handle|read_16bit|write_opcode)$|^bluetoe::details::(collect_attributes|collect_find_by_type_groups)::operator\(\)$|^bluetoe::service::read_primary_service_response$|^bluetoe::details::generate_attribute::access$|^bluetoe::details::attribute_value_read\w*$|characteristic_value_access$|::call_(read|write)_handler$'
 UNITS = lambda u: u in ('w_inst_att', 'w_inst_enc', 'w_inst_svc') or u.startswith('t_att_') or u.startswith('t_server')
 SV = 'bluetoe::server::'
-ALSO = [('C08', ('client-mtu-guard',))]   # clauses of this property that another module's rules decide: run here as well
+ALSO = [('C08', ('client-mtu-guard',)), ('C06', ('bounded-read',))]   # clauses of this property that another module's rules decide: run here as well
 META = {
     'level': 'three structural layers over server::l2cap_input and every request handler (template pattern and instantiations): (a) framing - the opcode dispatch table against spec/att.json, and a path-sensitive '
              'typestate over each handler: every exit has produced either the paired response opcode together with out_size, or error_response() naming the request opcode, or (commands / confirmations / '
